@@ -414,6 +414,25 @@ func runRabin(t *core.Tape, tier string, info *core.RunInfo) *core.Violation {
 				p.gen.SetTimeout()
 				info.Logf("party %d: timeout; QUAL=%v certified=%v", p.id, sortedQual(p.gen), p.gen.Certified())
 			}
+			// an honest, live dealer gave everybody a valid deal, every honest holder approved it in time and
+			// every false complaint was answered with a valid justification: after the timeout it is in the
+			// QUAL of EVERY honest party - its own view included (added after seed C11f: a dealer that had
+			// justified a false complaint dropped itself from its own QUAL, never published its commitments
+			// and nobody finished, so the end-of-run oracles had nothing to compare)
+			for _, p := range ps {
+				if !p.honest() {
+					continue
+				}
+				inQ := map[uint32]bool{}
+				for _, q := range sortedQual(p.gen) {
+					inQ[q] = true
+				}
+				for _, d := range ps {
+					if d.honest() && !inQ[uint32(d.id)] {
+						return rviol("membership", "membership/honest-dealer-excluded-at-timeout", "after the timeout honest party %d has QUAL %v: the honest, live dealer %d is missing", p.id, sortedQual(p.gen), d.id)
+					}
+				}
+			}
 			for _, p := range ps {
 				if p.dead(4) {
 					continue
